@@ -200,6 +200,31 @@ pub fn gen(tier: &str, seed: u64, out: &mut dyn FnMut(Value)) {
         }
         out(cond_case(spaced(&t2, &mut rng), "cond one-token mutation"));
     }
+    // --- whole rules: every operand's text is read in full whether or not the condition ever looks at that operand
+    {
+        let texts = [
+            ".y == 'b'", "this is not a match", ".y == 'b' trailing", ".y == 'b' 'c'", ".y", "== 'b'", ".y ==", ".y == b", "rule(", "rule(r) x", "rule(r)",
+            ".y is none none", ".y is", "@.y == 'b'", ".y == @", ".y == @.z .w", ".y = 'b'", ".y === 'b'", "", " ", ".y == 'b' #", ".y == 'b';", ".y &= '1' '2'", ".y <= '1' .z",
+            "(.y == 'b')", "not .y == 'b'", ".y == 'b' and .z == 'c'", ".y ~= 'b' i",
+        ];
+        let conds = [Some("$a"), None, Some("all of them"), Some("$a or $b"), Some("not $a"), Some("$a and $a"), Some("1 of $a"), Some("none of $b"), Some("$a and not $a")];
+        for t in texts {
+            for c in conds {
+                for first in [true, false] {
+                    let mut ms = vec![json!(["$a", ".x == 'a'"]), json!(["$b", t])];
+                    if !first {
+                        ms.reverse();
+                    }
+                    let mut r = json!({"name": "r", "matches": ms});
+                    if let Some(c) = c {
+                        r["condition"] = json!(c);
+                    }
+                    let ops = vec![json!({"k": "load", "docs": [{"name": "r", "params": {"disable": true}}, r]}), json!({"k": "compile"}), json!({"k": "engine"})];
+                    out(json!({"op": "history", "ops": ops, "tag": "whole rule: an operand the condition may not name", "nt": true}));
+                }
+            }
+        }
+    }
     // --- matches
     for n in 1..=3 {
         tuples(&MATCH_TOKS, n, &mut |t| {
